@@ -326,6 +326,18 @@ pub fn udp_case(seed: u64, case: usize) -> String {
             }
             let _ = client.send_to(&g, srv_addr).await;
         }
+        // structured hostile datagrams: valid header and message tag, then a block whose announced
+        // length exceeds what is left (uncompressed and compressed), a digest announcing 65,535
+        // entries, a zstd frame header declaring 2^63 bytes
+        let hostile: [&[u8]; 4] = [
+            &[0x53, 0xb0, 0, 2, 2, 0x40, 0x00, 0xaa, 0xbb, 0xcc],
+            &[0x53, 0xb0, 0, 2, 1, 0x40, 0x00, 0xaa],
+            &[0x53, 0xb0, 0, 1, 0xff, 0xff, 1, 2, 3],
+            &[0x53, 0xb0, 0, 2, 1, 0x0d, 0x00, 0x28, 0xb5, 0x2f, 0xfd, 0xe0, 0, 0, 0, 0, 0, 0, 0, 0x80, 0],
+        ];
+        for h in hostile {
+            let _ = client.send_to(h, srv_addr).await;
+        }
         // failed sends: gossip to an address family the bound socket cannot reach (the OS refuses
         // the send), several times; later sends must be unaffected
         for _ in 0..rng.range(1, 3) {
@@ -415,11 +427,19 @@ pub async fn gen_round(trace: &mut String, rng: &mut Prng, counts: &mut std::col
             seeds.push("10.9.9.8:9".to_string());
         }
     }
+    // one case in three: the node binds another address than the one it advertises (NAT, 0.0.0.0):
+    // "itself" is the ADVERTISED address — the one peers and seed lists know it by
+    let listen_addr: SocketAddr = if rng.chance(1, 3) {
+        *counts.entry("round_listen_differs_from_advertised".to_string()).or_insert(0) += 1;
+        ([0, 0, 0, 0], self_addr.port() + 1).into()
+    } else {
+        self_addr
+    };
     let config = ChitchatConfig {
         chitchat_id: id.clone(),
         cluster_id: "c".to_string(),
         gossip_interval: interval,
-        listen_addr: self_addr,
+        listen_addr,
         seed_nodes: seeds.clone(),
         failure_detector_config: FailureDetectorConfig::new(8.0, 1000, Duration::from_secs(10), Duration::from_secs(5), Duration::from_secs(if long_dead { 100 } else { 1_000_000 })),
         marked_for_deletion_grace_period: Duration::from_secs(1_000_000),
